@@ -74,7 +74,7 @@ type world struct {
 	mu     sync.Mutex
 	log    []ev
 	ii     *cleaner.IdleInvoker
-	gate   chan bool
+	gate   chan string // harness -> blocked cleaner call: outcome pattern, one of o|e per chained cleaner
 	root   map[string]*node
 	nextID atomic.Uint64
 	th     [maxThreads]*thread
@@ -103,23 +103,54 @@ func threadOf(ctx context.Context) int {
 	return -1
 }
 
-// cleanerFn is the instrumented Cleaner: it reports that it runs, blocks until
-// the harness lets it finish, and on success empties the root build directory
-// (what cleaner.NewDirectoryCleaner does in bb_worker).
+// Error codes of the chained cleaners by position (so that "first error" is observable).
+var subCodes = []codes.Code{codes.Unavailable, codes.DeadlineExceeded, codes.FailedPrecondition, codes.OutOfRange}
+
+// cleanerFn is the Cleaner of the IdleInvoker: it reports that it runs, blocks
+// until the harness lets it go on and then runs the REAL cleaner.NewChainedCleaner
+// over one instrumented cleaner per character of the pattern the harness sent
+// ('e' = fails with the code of its position; every one fails with Canceled when
+// the context is cancelled, as real cleaners do).  This is what cmd/bb_runner
+// builds: IdleInvoker(ChainedCleaner(process table, temporary directories, command)).
+// Whether the environment is clean afterwards is recorded from what the
+// individual cleaners did, not from what ChainedCleaner returns; a fully
+// successful run empties the root build directory (cleaner.NewDirectoryCleaner).
 func (w *world) cleanerFn(ctx context.Context) error {
 	t := threadOf(ctx)
 	w.emit(ev{kind: "cstart", t: t})
-	ok := <-w.gate
+	pat := <-w.gate
+	invoked, failed := 0, false
+	subs := make([]cleaner.Cleaner, len(pat))
+	for j := range pat {
+		j := j
+		subs[j] = func(ctx context.Context) error {
+			code := codes.OK
+			if ctx.Err() != nil {
+				code = codes.Canceled
+			} else if pat[j] == 'e' {
+				code = subCodes[j%len(subCodes)]
+			}
+			w.mu.Lock()
+			invoked++
+			failed = failed || code != codes.OK
+			w.log = append(w.log, ev{kind: "sub", t: t, op: fmt.Sprint(j), res: code.String()})
+			w.mu.Unlock()
+			if code != codes.OK {
+				return status.Error(code, "injected cleaner failure")
+			}
+			return nil
+		}
+	}
+	err := cleaner.NewChainedCleaner(subs)(ctx)
 	w.mu.Lock()
+	ok := invoked == len(pat) && !failed
 	if ok {
 		w.root = map[string]*node{}
 	}
+	w.log = append(w.log, ev{kind: "chainret", t: t, res: status.Code(err).String()})
 	w.log = append(w.log, ev{kind: "cend", t: t, res: map[bool]string{true: "ok", false: "err"}[ok]})
 	w.mu.Unlock()
-	if !ok {
-		return status.Error(codes.Unavailable, "injected cleaner failure")
-	}
-	return nil
+	return err
 }
 
 // fakeRunner is the base of cleanRunner: a call is a user of the environment
